@@ -22,7 +22,7 @@ EXPLANATION = (
     "needs-execution all hold, and the ready list is filtered by the targets of the gates that are ready in the same step (gate decides first); "
     "(R4) stale decisions are cleared before activation is computed, END is never cleared, and END/None activate nothing; (R5) the list handed to a "
     "superstep is the scheduler's result; (R6) early start of a default-open gate's targets is granted only while that gate has never executed in "
-    "this run (the test consults node_executions, not merely the absence of a decision). R4 also requires that a decision which is a single target name is compared by equality: a membership test on the decision is reachable only once an isinstance test established that it is a collection (for a str, `in` is substring containment). (R7) the controlling-gate relation that activation consults is computed from every gate's declared targets — the relation the gate-decides-first filter uses — not read back from graph edges (a control edge is omitted when another edge already links gate and target), and every gate kind contributes."
+    "this run (the test consults node_executions, not merely the absence of a decision). R4 also requires that a decision which is a single target name is compared by equality: a membership test on the decision is reachable only once an isinstance test established that it is a collection (for a str, `in` is substring containment). (R7) the controlling-gate relation that activation consults is computed from every gate's declared targets — the relation the gate-decides-first filter uses — not read back from graph edges (a control edge is omitted when another edge already links gate and target), and every gate kind contributes. R3 also requires that every ready gate takes part in the block (the only condition on the set of blocking gates is the node kind) and that activation consults the unfiltered list of declared controlling gates; (R8) every option a node factory/constructor accepts is used."
 )
 NOT_DECIDED = "The activation semantics over time: which decision sequence activates which target for a particular program and input."
 
